@@ -287,3 +287,36 @@ def variant_specs(draw, lo, hi, max_n=3, kinds=("snv", "ins", "del", "del_unpadd
     if not out:
         out.append({"start": lo, "end": lo + 1, "sequence": "A", "variant_type": "SNV"})
     return out
+
+
+@st.composite
+def collection_spec(draw, max_genes=2, max_fcs=2, max_vcs=1, with_variants=True, tx_kw=None, region_step=40):
+    """annotation collection: genes, feature collections, optional variant collection placed after all other members"""
+    tx_kw = tx_kw or {}
+    ng = draw(st.integers(0, max_genes))
+    nf = draw(st.integers(0 if ng else 1, max_fcs))
+    genes, fcs = [], []
+    for i in range(ng):
+        genes.append(draw(gene_spec(max_tx=2, max_exons=3, max_len=7, region=[draw(st.integers(0, 3)) + i * draw(st.sampled_from([0, 5, region_step])), 0], **tx_kw)))
+    for i in range(nf):
+        fcs.append(draw(feature_collection_spec(max_feat=2, max_blocks=2, max_len=7, region=[draw(st.integers(0, 60)), 0])))
+    his = [t["exons"][-1][1] for g_ in genes for t in g_["transcripts"]] + [f["blocks"][-1][1] for c in fcs for f in c["features"]]
+    hi = max(his)
+    vcs = []
+    if with_variants and max_vcs and draw(st.integers(0, 2)) == 0:
+        vs = draw(variant_specs(hi + 2, hi + 16, max_n=3))
+        for j, v in enumerate(vs):
+            v["variant_name"] = draw(st.one_of(st.none(), IDENT))
+            v["variant_id"] = "v%d" % j
+            v["phase_block"] = draw(st.one_of(st.none(), st.integers(0, 3)))
+            v["qualifiers"] = draw(simple_qualifiers(1))
+        vcs.append({"variants": vs, "variant_collection_name": draw(st.one_of(st.none(), IDENT)), "variant_collection_id": draw(st.one_of(st.none(), IDENT)),
+                    "qualifiers": draw(simple_qualifiers(1))})
+        hi = max(hi, max(v["end"] for v in vs))
+    # distinct gene/fc content is guaranteed by distinct ids
+    for i, g_ in enumerate(genes):
+        g_["gene_id"] = "g%d%s" % (i, g_.get("gene_id") or "")
+    for i, c in enumerate(fcs):
+        c["feature_collection_id"] = "fc%d%s" % (i, c.get("feature_collection_id") or "")
+    return {"genes": genes, "feature_collections": fcs, "variant_collections": vcs, "name": draw(st.one_of(st.none(), IDENT)),
+            "id": draw(st.one_of(st.none(), IDENT)), "qualifiers": draw(simple_qualifiers(2)), "hi": hi}
